@@ -130,7 +130,70 @@ func genDeadlineWorld(r *kit.Rand) *world {
 
 var volumeSites = []string{"SListVAs", "SListPodsVA", "SGetPVC", "SGetPVC", "SPatchStatus", "SProvDelete", "SRmNodeFin"}
 
-func genWorld(r *kit.Rand, stream string) *world {
+// genWorld adds, to the world of the chosen stream, the API shapes the model abstracts from (flavours).
+func genWorld(c *kit.Ctx, r *kit.Rand, stream string) *world {
+	w := genWorldCore(r, stream)
+	for _, n := range w.Nodes {
+		n.Flv = uint32(r.U64())
+		if !n.Taint && n.Flv&2 == 2 {
+			c.Count("flavor:node:disrupted-taint-with-other-effect")
+		}
+		if !n.Lbl && n.Flv&1 == 1 {
+			c.Count("flavor:node:lb-label-other-value")
+		}
+		if !n.Ready {
+			c.Count("flavor:node:not-ready:" + map[uint32]string{4: "Unknown", 8: "no-condition"}[n.Flv&12] + map[bool]string{true: "False"}[n.Flv&12 != 4 && n.Flv&12 != 8])
+		}
+	}
+	if len(w.Nodes) == 1 && w.Twin == nil && (w.Claim == nil || !w.Claim.Pid) && instAbsent(w.Inst) && r.Chance(50, 100) {
+		w.Nodes[0].NoPid = true
+		c.Count("flavor:node:no-provider-id")
+	}
+	for _, cl := range []*wClaim{w.Claim, w.Twin} {
+		if cl == nil {
+			continue
+		}
+		cl.Flv = uint32(r.U64())
+		if cl.Reg && cl.Flv&1 == 1 {
+			c.Count("flavor:claim:status.nodeName")
+		}
+		if !cl.Reg && cl.Pid && cl.Flv&2 == 2 {
+			c.Count("flavor:claim:registered-False")
+		}
+	}
+	for _, p := range w.Pods {
+		p.Flv = uint32(r.U64())
+		countPodFlavor(c, p)
+	}
+	return w
+}
+
+func countPodFlavor(c *kit.Ctx, p *wPod) {
+	f := p.Flv
+	if f&1 == 1 {
+		c.Count("flavor:pod:phase:" + map[bool]string{true: "Failed", false: "Pending"}[p.Terminal])
+	}
+	c.Count(fmt.Sprintf("flavor:pod:toleration-shape:%v:%d", p.Tol, (f>>1)&3))
+	if !p.Static {
+		switch (f >> 3) & 3 {
+		case 1:
+			c.Count("flavor:pod:owner:DaemonSet")
+		case 2:
+			c.Count("flavor:pod:owner:ReplicaSet")
+		}
+	}
+	if (f>>5)&3 == 1 || (f>>5)&3 == 2 {
+		c.Count("flavor:pod:critical-priority-class")
+	}
+	if len(p.PVs) > 0 && (f>>7)&1 == 1 {
+		c.Count("flavor:pod:ephemeral-volume")
+	}
+	if (f>>8)&1 == 1 {
+		c.Count("flavor:pod:emptyDir+missing-claim")
+	}
+}
+
+func genWorldCore(r *kit.Rand, stream string) *world {
 	if stream == "volumes" {
 		return genVolumeWorld(r)
 	}
@@ -280,8 +343,8 @@ func genFault(r *kit.Rand, w *world, ctrl string) *fault {
 		}
 	}
 	switch f.Site {
-	case "SListClaims", "SListPods", "SListVAs", "SListPodsVA", "SListNodes", "SProvGet", "SProvDelete", "SProvCreate":
-		f.Kind = "KServer"
+	case "SListClaims", "SListPods", "SListVAs", "SListPodsVA", "SListNodes", "SProvGet", "SProvDelete":
+		f.Kind = "KServer" // (SProvCreate: KNotFound = InsufficientCapacity, KConflict = NodeClassNotReady, KServer = other)
 	}
 	return f
 }
@@ -379,7 +442,7 @@ func envOp(r *kit.Rand, w *world, kind string) *opx {
 		if len(w.Nodes) == 0 {
 			return nil
 		}
-		p := &wPod{ID: int64(10 + r.Intn(3)), Node: w.Nodes[r.Intn(len(w.Nodes))].ID, Tol: r.Chance(50, 100), Static: r.Chance(10, 100)}
+		p := &wPod{ID: int64(10 + r.Intn(3)), Node: w.Nodes[r.Intn(len(w.Nodes))].ID, Tol: r.Chance(50, 100), Static: r.Chance(10, 100), Flv: uint32(r.U64())}
 		return &opx{g: "EnvPodAdd (" + p.g() + ")", kind: kind, env: func(w *world) {
 			for _, q := range w.Pods {
 				if q.ID == p.ID {
@@ -587,7 +650,7 @@ func nextOp(r *kit.Rand, w *world, faultsLeft *int, reconcilesLeft int, vs *vers
 
 func (rn *runner) history(stream string, r *kit.Rand) {
 	c := rn.c
-	w := genWorld(r, stream)
+	w := genWorld(c, r, stream)
 	w0 := w.g()
 	rn.s.restart()
 	n := r.Range(3, 9)
